@@ -10,7 +10,7 @@ import (
 )
 
 const (
-	vpMaxProbes = 10
+	vpMaxProbes = 16
 	vpMaxCalls  = 6
 )
 
